@@ -415,6 +415,7 @@ func init() {
 			"Not decided: anything about actual schedules; races inside sync.Pool/channels/BLAS (trusted); read-only-operand purity of the hand-written operations (findings 13, 14, 16 of DESIGN.md are listed there, not decided by this check).",
 		Assume: []string{"locks are taken on package-level mutexes by direct calls (the repo's only idiom); interprocedural lock holding is not modelled"},
 		Run: func(rc *rules.RC) {
+			rules.O8(rc)
 			rules.O9(rc, 20)
 			rules.RP(rc, nil, 4)
 			rules.WC(rc, 15)
